@@ -53,14 +53,43 @@ type Case struct {
 	Schema ps.Schema `json:"schema"`
 	Mode   string    `json:"mode"` // "template" | "rules" | "hand"
 	Tmpl   TMsg      `json:"tmpl"`
-	Input  []byte    `json:"input"`
+	Input  []byte    `json:"input,omitempty"`
 	Prefix []byte    `json:"prefix,omitempty"` // non-empty out to append to
+
+	// Stateful form: when Calls is non-empty the case is a history of Rewrite
+	// calls in one process on rewriter 0 (Schema/Mode/Tmpl above) and the
+	// additional rewriters More[k-1] (k >= 1), each built once. Input/Prefix
+	// above are then unused.
+	More  []RWSpec `json:"more,omitempty"`
+	Calls []Call   `json:"calls,omitempty"`
+}
+
+// RWSpec describes an additional rewriter of a history.
+type RWSpec struct {
+	Schema ps.Schema `json:"schema"`
+	Mode   string    `json:"mode"`
+	Tmpl   TMsg      `json:"tmpl"`
+}
+
+// Call is one step of a history.
+//
+//	valid        Input is a valid encoding: judged by the full oracle exactly as if it were the only call
+//	truncations  Rewrite is called on every prefix of Input that is malformed at the top level (at most 48,
+//	             evenly spread): each call must return without panic (an error is expected, not required)
+//	hostile      Input is not an encoding of the message (truncated embedded message, wrong wire type for a
+//	             templated field, random bytes): one call, must return without panic
+type Call struct {
+	RW     int    `json:"rw"`
+	Kind   string `json:"kind"`
+	Input  []byte `json:"input"`
+	Prefix []byte `json:"prefix,omitempty"`
 }
 
 type fail struct {
 	evid.Failure
 	Stage string
 	Diffs []ps.Diff
+	View  *Case // the single-call view (rewriter + input) the failure belongs to, for histories
 }
 
 func mk(stage, class, oracle, obs, exp string) *fail {
@@ -598,12 +627,56 @@ type facts struct {
 	inputValid bool
 }
 
-// check is the oracle: pure function of the case and the library.
-func check(c *Case, fx *facts) *fail {
+// prepared is a rewriter built once from a (Schema, Mode, Tmpl) description.
+type prepared struct {
+	b        *ps.Built
+	rw       segproto.Rewriter
+	tmplJSON []byte
+	tmplCopy []byte
+}
+
+// prepare builds the rewriter of the single-call view c. It returns (nil, nil)
+// when ParseRewriteTemplate reports an error (never a violation by itself).
+func prepare(c *Case, fx *facts) (*prepared, *fail) {
 	b, err := ps.Build(&c.Schema)
 	if err != nil {
-		return mk("harness", "harness", "harness: schema builds", err.Error(), "")
+		return nil, mk("harness", "harness", "harness: schema builds", err.Error(), "")
 	}
+	m0 := &c.Schema.Msgs[0]
+	tmplJSON := []byte(templateJSON(&c.Schema, m0, &c.Tmpl))
+	fx.tmplJSON = string(tmplJSON)
+	p := &prepared{b: b, tmplJSON: tmplJSON, tmplCopy: append([]byte(nil), tmplJSON...)}
+	rw, err, pan := buildRewriter(b, c, tmplJSON)
+	if pan != nil {
+		return nil, mk("build", "panic", "building the rewriter does not panic", fmt.Sprintf("panic: %v (template %s)", pan, clip(tmplJSON, 300)), "a Rewriter or an error")
+	}
+	if err != nil {
+		fx.parseErr = true
+		return nil, nil
+	}
+	if rw == nil {
+		return nil, mk("build", "nil-rewriter", "ParseRewriteTemplate returns a Rewriter or an error", "nil, nil", "non-nil Rewriter")
+	}
+	p.rw = rw
+	return p, nil
+}
+
+// check is the oracle: pure function of the case and the library.
+func check(c *Case, fx *facts) *fail {
+	if len(c.Calls) > 0 {
+		return checkHistory(c, fx)
+	}
+	p, fl := prepare(c, fx)
+	if fl != nil || p == nil {
+		return fl
+	}
+	return p.callValid(c, fx)
+}
+
+// callValid judges one Rewrite call on the valid input c.Input (appending to
+// c.Prefix as well when that is non-empty) with the already built rewriter.
+func (p *prepared) callValid(c *Case, fx *facts) *fail {
+	b, rw, tmplJSON, tmplCopy := p.b, p.rw, p.tmplJSON, p.tmplCopy
 	m0 := &c.Schema.Msgs[0]
 	// original value = what the reference decodes from the input
 	dyn := dynamicpb.NewMessage(b.Desc[0])
@@ -618,21 +691,6 @@ func check(c *Case, fx *facts) *fail {
 	}
 	fx.canonical = ps.Canonical(tree)
 	expected := apply(&c.Schema, m0, &orig, &c.Tmpl)
-
-	tmplJSON := []byte(templateJSON(&c.Schema, m0, &c.Tmpl))
-	fx.tmplJSON = string(tmplJSON)
-	tmplCopy := append([]byte(nil), tmplJSON...)
-	rw, err, pan := buildRewriter(b, c, tmplJSON)
-	if pan != nil {
-		return mk("build", "panic", "building the rewriter does not panic", fmt.Sprintf("panic: %v (template %s)", pan, clip(tmplJSON, 300)), "a Rewriter or an error")
-	}
-	if err != nil {
-		fx.parseErr = true // a ParseRewriteTemplate error is never a violation by itself
-		return nil
-	}
-	if rw == nil {
-		return mk("build", "nil-rewriter", "ParseRewriteTemplate returns a Rewriter or an error", "nil, nil", "non-nil Rewriter")
-	}
 
 	in := append([]byte(nil), c.Input...)
 	out1, err, pan := rewrite(rw, nil, in)
@@ -679,6 +737,95 @@ func check(c *Case, fx *facts) *fail {
 	return nil
 }
 
+// malformedCuts lists the prefixes lengths of in that are malformed at the top
+// level according to the wire model (at most max of them, evenly spread).
+func malformedCuts(in []byte, max int) []int {
+	// a prefix of a well-formed message is well-formed at the top level exactly
+	// when it ends on a field boundary
+	boundary := map[int]bool{}
+	if ts, err := tokens(in); err == nil {
+		off := 0
+		for _, t := range ts {
+			off += len(t.raw)
+			boundary[off] = true
+		}
+	}
+	var cuts []int
+	for n := 1; n < len(in); n++ {
+		if !boundary[n] {
+			cuts = append(cuts, n)
+		}
+	}
+	if len(cuts) > max {
+		out := make([]int, 0, max)
+		for i := 0; i < max; i++ {
+			out = append(out, cuts[i*len(cuts)/max])
+		}
+		cuts = out
+	}
+	return cuts
+}
+
+// view returns the single-call view of rewriter k of a history.
+func (c *Case) view(k int) Case {
+	if k == 0 {
+		return Case{Schema: c.Schema, Mode: c.Mode, Tmpl: c.Tmpl}
+	}
+	r := c.More[k-1]
+	return Case{Schema: r.Schema, Mode: r.Mode, Tmpl: r.Tmpl}
+}
+
+// checkHistory runs the calls of a stateful case in order on rewriters that
+// are built once. Every valid call is judged by callValid exactly as if it
+// were the only call; the other calls must return without panic.
+func checkHistory(c *Case, fx *facts) *fail {
+	n := 1 + len(c.More)
+	views := make([]Case, n)
+	preps := make([]*prepared, n)
+	for k := 0; k < n; k++ {
+		views[k] = c.view(k)
+		p, fl := prepare(&views[k], fx)
+		if fl != nil {
+			return fl
+		}
+		if p == nil {
+			return nil // ParseRewriteTemplate error: not a violation, nothing to run
+		}
+		preps[k] = p
+	}
+	for i := range c.Calls {
+		call := &c.Calls[i]
+		if call.RW < 0 || call.RW >= n {
+			return mk("harness", "harness", "harness: call refers to a rewriter of the history", fmt.Sprint(call.RW), "")
+		}
+		p := preps[call.RW]
+		where := fmt.Sprintf("call %d of %d (%s, rewriter %d)", i+1, len(c.Calls), call.Kind, call.RW)
+		switch call.Kind {
+		case "valid":
+			v := views[call.RW]
+			v.Input, v.Prefix = call.Input, call.Prefix
+			if fl := p.callValid(&v, fx); fl != nil {
+				fl.Oracle += " [" + where + " of a history: judged as if it were the only call]"
+				fl.View = &v
+				return fl
+			}
+		case "truncations":
+			for _, cut := range malformedCuts(call.Input, 48) {
+				in := append([]byte(nil), call.Input[:cut]...)
+				if _, _, pan := rewrite(p.rw, nil, in); pan != nil {
+					return mk("rewrite", "panic", "Rewrite does not panic on a truncated message ["+where+"]", fmt.Sprintf("panic: %v (input %s)", pan, evid.Hex(clip(in, 64))), "an error")
+				}
+			}
+		default: // hostile
+			in := append([]byte(nil), call.Input...)
+			if _, _, pan := rewrite(p.rw, append([]byte(nil), call.Prefix...), in); pan != nil {
+				return mk("rewrite", "panic", "Rewrite does not panic on a malformed message ["+where+"]", fmt.Sprintf("panic: %v (input %s)", pan, evid.Hex(clip(in, 64))), "a result or an error")
+			}
+		}
+	}
+	return nil
+}
+
 func checkOutput(b *ps.Built, c *Case, expected *ps.Val, out []byte, canonical bool, how string) *fail {
 	if _, err := tokens(out); err != nil {
 		return mk("output", "output-not-wire", "output parses with protowire ("+how+")", err.Error()+" in "+evid.Hex(clip(out, 64)), "a sequence of fields")
@@ -700,7 +847,11 @@ func checkOutput(b *ps.Built, c *Case, expected *ps.Val, out []byte, canonical b
 func checkCase(c Case) *evid.Failure {
 	var fx facts
 	if f := check(&c, &fx); f != nil {
-		if cls := knownClass(&c, f); cls != "" && evid.KnownActive(cls) {
+		v := &c
+		if f.View != nil {
+			v = f.View
+		}
+		if cls := knownClass(v, f); cls != "" && evid.KnownActive(cls) {
 			return nil
 		}
 		return &f.Failure
@@ -1057,8 +1208,119 @@ func numLabel(n int) string {
 	return ">65535"
 }
 
+// pair is one (rewriter description, valid input) pair with the facts the
+// label histogram needs.
+type pair struct {
+	c       Case
+	gs      genStats
+	tx      ps.TxStats
+	variant int
+	tree    []ps.WNode
+}
+
+// genPair draws a rewriter over message 0 of s and a valid encoded input.
+func genPair(rt *rapid.T, s *ps.Schema, b *ps.Built) pair {
+	m0 := &s.Msgs[0]
+	c := Case{Schema: *s}
+	var gs genStats
+	switch rapid.IntRange(0, 9).Draw(rt, "mode") {
+	case 0, 1, 2, 3:
+		c.Mode = "template"
+		c.Tmpl = genTemplate(rt, s, 0, false, 0, &gs)
+	case 4, 5, 6:
+		c.Mode = "rules"
+		c.Tmpl = genTemplate(rt, s, 0, true, 0, &gs)
+	default:
+		c.Mode = "hand"
+		c.Tmpl = genHand(rt, s, &gs)
+	}
+	for i := 0; i < gs.avoidedFieldset; i++ {
+		evid.Excluded(clsFieldset)
+	}
+	for i := 0; i < gs.avoidedBitOrSint; i++ {
+		evid.Excluded(clsBitOrSint)
+	}
+	// input: reference encoding of a value, then protowire-level variants
+	v := ps.GenMsgVal(rt, s, 0, ps.ValOpts{MaxRep: 4, LongRep: 14})
+	ref, err := gproto.MarshalOptions{Deterministic: true}.Marshal(b.Dyn(0, &v))
+	if err != nil {
+		rt.Fatalf("harness: reference marshal: %v", err)
+	}
+	tree, err := s.ParseWire(m0, ref)
+	if err != nil {
+		rt.Fatalf("harness: %v", err)
+	}
+	var tx ps.TxStats
+	variant := rapid.IntRange(0, 9).Draw(rt, "variant")
+	switch {
+	case variant < 3: // canonical reference bytes
+	case variant < 5: // canonical, unknown fields interleaved, permuted, duplicated occurrences
+		tree = ps.Transform(rt, s, m0, tree, ps.TxSel{Unknown: true, Perm: rapid.Bool().Draw(rt, "perm"), Override: rapid.Bool().Draw(rt, "dup"), Split: rapid.IntRange(0, 3).Draw(rt, "split") == 0}, &tx)
+	default:
+		tree = ps.Transform(rt, s, m0, tree, ps.TxSel{Unknown: rapid.Bool().Draw(rt, "unk"), Perm: rapid.Bool().Draw(rt, "perm"), Override: rapid.Bool().Draw(rt, "dup"),
+			Split: rapid.IntRange(0, 3).Draw(rt, "split") == 0, Nonmin: rapid.Bool().Draw(rt, "nonmin")}, &tx)
+	}
+	if evid.KnownActive(clsFirstOcc) {
+		n := 0
+		tree = mergeRuled(s, m0, &c.Tmpl, tree, &n)
+		for i := 0; i < n; i++ {
+			evid.Excluded(clsFirstOcc)
+		}
+	}
+	c.Input = ps.Serialize(tree)
+	if rapid.IntRange(0, 2).Draw(rt, "prefix?") == 0 {
+		c.Prefix = rapid.SliceOfN(rapid.Byte(), 1, 20).Draw(rt, "prefix")
+	}
+
+	return pair{c: c, gs: gs, tx: tx, variant: variant, tree: tree}
+}
+
+// genHostile derives from the valid input of p an input that is NOT an
+// encoding of the message (only "no panic" is required of Rewrite on it).
+func genHostile(rt *rapid.T, p *pair) ([]byte, string) {
+	m0 := &p.c.Schema.Msgs[0]
+	templated := map[int]bool{}
+	for i := range p.c.Tmpl.Fields {
+		templated[m0.Fields[p.c.Tmpl.Fields[i].Idx].Num] = true
+	}
+	tree := ps.CloneNodes(p.tree)
+	switch rapid.IntRange(0, 3).Draw(rt, "hostile-kind") {
+	case 0: // an embedded message cut short inside a well-formed outer message
+		for i := range tree {
+			if tree[i].IsMsg {
+				if pl := ps.Serialize(tree[i].Sub); len(pl) >= 2 {
+					tree[i].IsMsg, tree[i].Sub = false, nil
+					tree[i].Raw = pl[:rapid.IntRange(1, len(pl)-1).Draw(rt, "inner-cut")]
+					return ps.Serialize(tree), "embedded-message-truncated"
+				}
+			}
+		}
+	case 1: // a templated field with another wire type
+		for i := range tree {
+			if templated[tree[i].Num] {
+				nd := ps.WNode{Num: tree[i].Num}
+				if tree[i].Typ == protowire.VarintType {
+					nd.Typ = rapid.SampledFrom([]protowire.Type{protowire.BytesType, protowire.Fixed32Type, protowire.Fixed64Type}).Draw(rt, "wrong-type")
+					nd.Raw = rapid.SliceOfN(rapid.Byte(), 0, 6).Draw(rt, "wrong-payload")
+					nd.U = uint64(rapid.Uint32().Draw(rt, "wrong-fixed"))
+				} else {
+					nd.Typ = protowire.VarintType
+					nd.U = rapid.Uint64().Draw(rt, "wrong-varint")
+				}
+				tree[i] = nd
+				return ps.Serialize(tree), "templated-field-wrong-wire-type"
+			}
+		}
+	case 2: // a single malformed prefix
+		if cuts := malformedCuts(p.c.Input, 1<<20); len(cuts) > 0 {
+			return p.c.Input[:rapid.SampledFrom(cuts).Draw(rt, "cut")], "one-malformed-prefix"
+		}
+	}
+	return rapid.SliceOfN(rapid.Byte(), 1, 24).Draw(rt, "random-bytes"), "random-bytes"
+}
+
 func TestRewrite(t *testing.T) {
-	evid.Check(t, "Rewrite", 6000, func(rt *rapid.T) {
+	evid.Check(t, "Rewrite", 4500, func(rt *rapid.T) {
 		s, _ := ps.GenSchema(rt, ps.GenOpts{StringKey: true, Unexp: true, MidNums: c19Mid, BigNums: c19Big})
 		b, err := ps.Build(&s)
 		if err != nil {
@@ -1067,62 +1329,13 @@ func TestRewrite(t *testing.T) {
 		m0 := &s.Msgs[0]
 		// several (template, input) pairs per schema: building the Go type, the
 		// descriptor and the library's type caches dominates the cost
-		plo, phi := 2, 5
+		plo, phi := 1, 3
 		if evid.Thorough() {
-			plo, phi = 8, 20
+			plo, phi = 4, 10
 		}
 		for rep := rapid.IntRange(plo, phi).Draw(rt, "pairs"); rep > 0; rep-- {
-			c := Case{Schema: s}
-			var gs genStats
-			switch rapid.IntRange(0, 9).Draw(rt, "mode") {
-			case 0, 1, 2, 3:
-				c.Mode = "template"
-				c.Tmpl = genTemplate(rt, &s, 0, false, 0, &gs)
-			case 4, 5, 6:
-				c.Mode = "rules"
-				c.Tmpl = genTemplate(rt, &s, 0, true, 0, &gs)
-			default:
-				c.Mode = "hand"
-				c.Tmpl = genHand(rt, &s, &gs)
-			}
-			for i := 0; i < gs.avoidedFieldset; i++ {
-				evid.Excluded(clsFieldset)
-			}
-			for i := 0; i < gs.avoidedBitOrSint; i++ {
-				evid.Excluded(clsBitOrSint)
-			}
-			// input: reference encoding of a value, then protowire-level variants
-			v := ps.GenMsgVal(rt, &s, 0, ps.ValOpts{MaxRep: 4, LongRep: 14})
-			ref, err := gproto.MarshalOptions{Deterministic: true}.Marshal(b.Dyn(0, &v))
-			if err != nil {
-				rt.Fatalf("harness: reference marshal: %v", err)
-			}
-			tree, err := s.ParseWire(m0, ref)
-			if err != nil {
-				rt.Fatalf("harness: %v", err)
-			}
-			var tx ps.TxStats
-			variant := rapid.IntRange(0, 9).Draw(rt, "variant")
-			switch {
-			case variant < 3: // canonical reference bytes
-			case variant < 5: // canonical, unknown fields interleaved, permuted, duplicated occurrences
-				tree = ps.Transform(rt, &s, m0, tree, ps.TxSel{Unknown: true, Perm: rapid.Bool().Draw(rt, "perm"), Override: rapid.Bool().Draw(rt, "dup"), Split: rapid.IntRange(0, 3).Draw(rt, "split") == 0}, &tx)
-			default:
-				tree = ps.Transform(rt, &s, m0, tree, ps.TxSel{Unknown: rapid.Bool().Draw(rt, "unk"), Perm: rapid.Bool().Draw(rt, "perm"), Override: rapid.Bool().Draw(rt, "dup"),
-					Split: rapid.IntRange(0, 3).Draw(rt, "split") == 0, Nonmin: rapid.Bool().Draw(rt, "nonmin")}, &tx)
-			}
-			if evid.KnownActive(clsFirstOcc) {
-				n := 0
-				tree = mergeRuled(&s, m0, &c.Tmpl, tree, &n)
-				for i := 0; i < n; i++ {
-					evid.Excluded(clsFirstOcc)
-				}
-			}
-			c.Input = ps.Serialize(tree)
-			if rapid.IntRange(0, 2).Draw(rt, "prefix?") == 0 {
-				c.Prefix = rapid.SliceOfN(rapid.Byte(), 1, 20).Draw(rt, "prefix")
-			}
-
+			pr := genPair(rt, &s, b)
+			c, gs, tx, variant, tree := pr.c, pr.gs, pr.tx, pr.variant, pr.tree
 			// ---- bookkeeping
 			evid.Eval(1)
 			present := map[int]bool{}
@@ -1189,6 +1402,72 @@ func TestRewrite(t *testing.T) {
 			}
 			evid.Sample(c)
 
+			// ---- stateful form: a history of calls around this pair
+			if rapid.IntRange(0, 9).Draw(rt, "history?") < 6 {
+				pairs := []pair{pr}
+				switch rapid.IntRange(0, 5).Draw(rt, "second-rewriter") {
+				case 0: // another rewriter of the same message type
+					pairs = append(pairs, genPair(rt, &s, b))
+					evid.Label("history.two-rewriters.same-type")
+				case 1: // a rewriter of another message type (small field numbers overlap)
+					s2, _ := ps.GenSchema(rt, ps.GenOpts{StringKey: true, Unexp: true, MaxMsgs: 2, MaxFields: 5, NumCap: 2047})
+					b2, err := ps.Build(&s2)
+					if err != nil {
+						rt.Fatalf("harness: %v", err)
+					}
+					pairs = append(pairs, genPair(rt, &s2, b2))
+					evid.Label("history.two-rewriters.different-type")
+				}
+				for _, p := range pairs[1:] {
+					c.More = append(c.More, RWSpec{Schema: p.c.Schema, Mode: p.c.Mode, Tmpl: p.c.Tmpl})
+				}
+				ncalls := rapid.IntRange(2, 6).Draw(rt, "ncalls")
+				badSeen, validAfterBad, repeats := false, false, false
+				used := map[string]bool{}
+				for j := 0; j < ncalls; j++ {
+					k := rapid.IntRange(0, len(pairs)-1).Draw(rt, "call-rw")
+					p := &pairs[k]
+					kind := rapid.IntRange(0, 9).Draw(rt, "call-kind")
+					if j == ncalls-1 {
+						kind = 0 // histories end with a valid call
+					}
+					call := Call{RW: k}
+					switch {
+					case kind < 5:
+						call.Kind, call.Input = "valid", p.c.Input
+						if rapid.IntRange(0, 3).Draw(rt, "call-prefix?") == 0 {
+							call.Prefix = rapid.SliceOfN(rapid.Byte(), 1, 12).Draw(rt, "call-prefix")
+						}
+						key := fmt.Sprint(k)
+						repeats = repeats || used[key]
+						used[key] = true
+						validAfterBad = validAfterBad || badSeen
+					case kind < 8 && len(malformedCuts(p.c.Input, 1)) > 0:
+						call.Kind, call.Input = "truncations", p.c.Input
+						badSeen = true
+						evid.Label("history.call.truncations(every malformed prefix)")
+					default:
+						call.Kind = "hostile"
+						var what string
+						call.Input, what = genHostile(rt, p)
+						badSeen = true
+						evid.Label("history.call.hostile." + what)
+					}
+					c.Calls = append(c.Calls, call)
+				}
+				c.Input, c.Prefix = nil, nil
+				evid.Eval(len(c.Calls) - 1) // one evaluation was counted for the pair itself
+				evid.Label(fmt.Sprintf("history.calls=%d", len(c.Calls)))
+				lab(validAfterBad, "history.valid-call-after-failing-call")
+				lab(repeats, "history.same-valid-call-repeated")
+				if validAfterBad {
+					cj, _ := json.Marshal(c)
+					evid.NonTrivial(evid.Hash(cj))
+				}
+			} else {
+				evid.Label("history.none(single call)")
+			}
+
 			var fx facts
 			f := check(&c, &fx)
 			lab(fx.parseErr, "ParseRewriteTemplate-error(not a violation)")
@@ -1196,7 +1475,11 @@ func TestRewrite(t *testing.T) {
 				if f.Stage == "harness" {
 					rt.Fatalf("harness: %s", f.Error())
 				}
-				if cls := knownClass(&c, f); cls != "" && evid.KnownActive(cls) {
+				kc := &c
+				if f.View != nil {
+					kc = f.View
+				}
+				if cls := knownClass(kc, f); cls != "" && evid.KnownActive(cls) {
 					evid.Excluded(cls)
 					continue
 				}
